@@ -1,5 +1,6 @@
 import Driver.Proto
 import Neutrino.Spec.Import
+import Neutrino.Gen.Import
 open Neutrino.Import
 namespace Driver.Drv.Import
 
@@ -86,7 +87,10 @@ def runCase : CaseFn := fun c => Id.run do
   let mut post1 : Option Obs := none
   let mut mst : Option Stores := none       -- model state
   let mut diverged := false
-  let cfg1 : Cfg := { bs := nat! (field hdr "bs"), failB := (field hdr "failb").toNat?, failF := (field hdr "failf").toNat?, cancelAt := (field hdr "cancel").toNat? }
+  -- batch size 0 / negative = option left unset: NewHeadersImport fills in the default (regenerated fact)
+  let bsReq := (field hdr "bs").toNat?.getD 0
+  let bsEff := if bsReq == 0 then Neutrino.Gen.Import.defaultWriteBatchSize else bsReq
+  let cfg1 : Cfg := { bs := bsEff, failB := (field hdr "failb").toNat?, failF := (field hdr "failf").toNat?, cancelAt := (field hdr "cancel").toNat? }
   let cfg2 : Cfg := { bs := cfg1.bs }
   for (ln, line) in c.lines do
     let (op, obs) := splitObs line
